@@ -189,6 +189,9 @@ def run_case(i, seed, tier):
             h.extend(nops)
     ops = list(h.ops)
     h.sess.close()
+    if i % 6 == 2:
+        ops = [{'op': 'clock_tick', 'seconds': 1}] + ops      # the clock runs while editing and mastering
+        counters['running_clock_cases'] = 1
     vio, dec = check(cfg, ops, seed * 1000003 + i, counters)
     nt = False
     if dec is not None and dec.pvd is not None:
